@@ -1,1 +1,2 @@
 import TaskModel.Resolve.Glob
+import TaskModel.Load.RootRef
